@@ -494,18 +494,30 @@ def observe_map(m, meta, h, step_i, what):
                                  '(extracted layoutb_with = false)', layer='L0', impl=dict(idx=idx), model=res[1])]
                 return []
             out.append((op, cmp_layout))
-    if 'finer' in what and meta.kind != 'wide':
-        # get_values_pix(nside=finer): the value of the containing pixel (implementation-internal, C15)
+    if 'finer' in what:
+        # get_values_pix(nside=finer): the value of the containing pixel (implementation-internal, C15), for NEST
+        # and for RING-ordered pixel numbers of the finer resolution, values and validity
         errs = []
         try:
             base = m.get_values_pix(allpix)
+            basev = np.asarray(m.get_values_pix(allpix, valid_mask=True))
             for up in (2, 4):
                 nfine_up = up * up
                 sel = np.arange(0, meta.npix * nfine_up, max(1, (meta.npix * nfine_up) // 97), dtype=np.int64)
+                sel0 = sel.copy()
                 got = m.get_values_pix(sel, nside=meta.ns * up)
                 want = base[sel // nfine_up]
                 if meta.cells(got) != meta.cells(want):
                     errs.append('get_values_pix(nside=%d) differs from the value of the containing pixel' % (meta.ns * up))
+                gv = np.asarray(m.get_values_pix(sel, nside=meta.ns * up, valid_mask=True))
+                if not np.array_equal(gv, basev[sel // nfine_up]):
+                    errs.append('get_values_pix(nside=%d, valid_mask=True) differs from the validity of the containing pixel' % (meta.ns * up))
+                ring = hpg.nest_to_ring(meta.ns * up, sel)
+                gr = m.get_values_pix(ring, nside=meta.ns * up, nest=False)
+                if meta.cells(gr) != meta.cells(want):
+                    errs.append('get_values_pix(nside=%d, nest=False) differs from the NEST lookup of the converted pixel numbers' % (meta.ns * up))
+                if not np.array_equal(sel, sel0):
+                    errs.append('get_values_pix(nside=) changed the caller\'s pixel array')
         except Exception as e:  # noqa
             errs.append('get_values_pix(nside=) raised %s: %s' % (type(e).__name__, e))
         if errs:
